@@ -79,6 +79,9 @@ func runC20(c *eng.Ctx) {
 		c.Ob("PROV-chunk-delete", key, class != "", s.call.Pos(), "deleted chunks are "+ifs(class != "", class)+ifs(class == "", "of unrecognised provenance: neither old-minus-new garbage, nor chunks of the entry being deleted, nor chunks uploaded by this request"))
 	}
 
+	// a hard-linked name gives up its share once per delete (a counter that falls too fast deletes shared chunks early)
+	releasedOnce(c, "PROV-chunk-delete")
+
 	// ---------------------------------------------------------------- (3) ORDER-commit-then-delete
 	type commit struct {
 		rel, fn string
@@ -422,6 +425,24 @@ func classifyChunkArg(root, fn *ssa.Function, arg ssa.Value) string {
 	}
 	if eng.NameIs(name, "server.FilerServer).saveMetaData", "server.FilerServer).encrypt") {
 		// the argument is the chunk list of the entry that was just refused by the store
+		// ... which must not be the list of an entry that was read from the store (an append merges the stored entry's
+		// chunks into it; they stay referenced by the unchanged stored entry when the write fails)
+		stored := false
+		eng.Walk(arg, 8, func(y ssa.Value) bool {
+			if eng.FieldSpec(y) == "Entry.Chunks" {
+				if base := eng.FieldBase(y); base != nil {
+					for _, b := range eng.Resolve(base) {
+						if eng.MentionsCall(b, "filer.Filer).FindEntry") {
+							stored = true
+						}
+					}
+				}
+			}
+			return true
+		})
+		if stored {
+			return ""
+		}
 		if eng.Mentions(arg, 8, func(y ssa.Value) bool { return eng.IsParamLike(y, "fileChunks") }) || eng.MentionsField(arg, "Entry.Chunks") {
 			return "chunks uploaded by this request (metadata write failed)"
 		}
